@@ -124,7 +124,7 @@ def check_c12(prop, tier):
     work = common.scratch()
     try:
         T.praatio()
-        rel = lambda c: c.startswith("C12_") or c in ("times_off_grid", "UNKNOWN_OP")
+        rel = lambda c: c.startswith("C12_") or c.startswith("C10_mergeTiers_") or c in ("times_off_grid", "UNKNOWN_OP")
         run_part(prop, tier, res, common.load_findings(), work, MAP_OPS, ["cropTg", "eraseTg", "spaceTg", "editTg", "mergeTg"], rel)
         res.exhaustive = True
         res.notes["apalache_inductive_invariant"] = apalache_inductive(work)
